@@ -77,8 +77,11 @@ func evidence(m *lib.Merged) map[string]any {
 		"reads_before_pending_flush":       m.Counters["reads_pending_rollover"],
 		"reads_before_pending_flush_after_restart_in_counted_hour": m.Counters["reads_pending_rollover_after_restart_in_hour"],
 		"reads_with_counts_in_oldest_window_hour":                  m.Counters["reads_oldest_window_hour_counted"],
-		"rule": "BFS over histories of update/advance-hours/flush/restart/set-limit/clear/read on the real stats.StatsCtx (bbolt file on tmpfs, UnitID = virtual hour, real HTTP handlers through httptest); a state is (dump of the current unit + every bbolt bucket + limit through a hook, reference map hour->counters, virtual hour); after EVERY transition GET /control/stats is decoded and compared with the reference: five totals, hourly series per hour and their sums, daily series <= totals, nothing outside (current-limit, current]. non-trivial = transition executed while at least one query is counted in the reference",
+		"rule": "BFS over histories of update/advance-hours/hour-turns-inside-the-next-clock-reading-operation/flush/restart/set-limit/clear/read on the real stats.StatsCtx (bbolt file on tmpfs, UnitID = virtual hour, real HTTP handlers through httptest); a state is (dump of the current unit + every bbolt bucket + limit through a hook, reference map hour->counters, virtual hour); after EVERY transition GET /control/stats is decoded and compared with the reference: five totals, hourly series per hour and their sums, daily series <= totals, nothing outside (current-limit, current]. non-trivial = transition executed while at least one query is counted in the reference",
 	}
+	ev["reads_after_hour_turned_inside_restart"] = m.Counters["hour_turned_inside_restart"]
+	ev["reads_after_hour_turned_inside_flush"] = m.Counters["hour_turned_inside_flush"]
+	ev["reads_after_hour_turned_inside_reset"] = m.Counters["hour_turned_inside_clear"]
 	ev["schedules_explored"] = m.Counters["sched_executions"]
 	ev["scheduling_points"] = m.Counters["sched_points"]
 	ev["sched_scenarios_completed_bound_0"] = m.Distinct["sched_scenarios_bound_0"]
